@@ -32,3 +32,15 @@ Theorem C05_default_filter_inert : forall objs c u us gs,
   sync_walk objs 0%N false false [] [] = Some (c, u, us, gs) -> gs = [] /\ (c = true -> u = true).
 Proof. exact default_filter_never_copies. Qed.
 Print Assumptions C05_default_filter_inert.
+
+(* ---- for EVERY graph, initial pool population and schedule (Proofs/TraverseDoor.v) ---- *)
+From I2N Require Import Proofs.TraverseInv Proofs.TraverseDoor.
+
+(* whatever a worker asks the door to remove while backing out of a node: the request comes from the node's own worker,
+   in the atomic section in which that worker's clean decision on that node was positive, and names only states of that
+   node that are marked for removal (unset_mode f.), belong to a selected vm and are not net states *)
+Theorem C05_removals_only_marked_all_schedules : forall g p sched evs w i sts,
+  In evs (snd (run_schedule g (init_state g p) sched)) -> In (EDoor w i true sts) evs ->
+  own g w i = true /\ In (EClean w i true) evs /\ forall x, In x sts -> marked g i x.
+Proof. exact removals_only_marked. Qed.
+Print Assumptions C05_removals_only_marked_all_schedules.
